@@ -30,7 +30,7 @@ FEASIBILITY_TIMEOUT_MS = 1500
 
 
 class Check:
-    __slots__ = ("oid", "status", "model", "seconds", "detail", "path", "backend", "reason")
+    __slots__ = ("oid", "status", "model", "seconds", "detail", "path", "backend", "reason", "overapprox")
 
     def __init__(self, oid, status, model=None, seconds=0.0, detail=None, path=None, backend="z3", reason=None):
         self.oid = oid
@@ -41,6 +41,7 @@ class Check:
         self.path = path
         self.backend = backend
         self.reason = reason
+        self.overapprox = False     # the path read a value the sidecar over-approximates (a failure there needs a native witness)
 
 
 class Stats:
@@ -236,6 +237,7 @@ class Ctx:
                     dt = time.time() - t0
                     c = Check(oid, "failed", model=self.model_dict(mm), seconds=dt, detail=detail)
                     c.path = list(self.decisions[: self.di])
+                    c.overapprox = any(n and n[0] == "overapprox" for n in self.notes)
                     self.checks.append(c)
                     return c
                 except Exception:
@@ -263,6 +265,7 @@ class Ctx:
             c = Check(oid, "unknown", seconds=dt, detail=detail, reason=self.solver.reason_unknown())
             c.model = {"__smt2__": self.smt2(neg)}
         c.path = list(self.decisions[: self.di])
+        c.overapprox = any(n and n[0] == "overapprox" for n in self.notes)
         self.checks.append(c)
         return c
 
